@@ -1,0 +1,48 @@
+//go:build verif
+// +build verif
+
+package nsqd
+
+import "sync/atomic"
+
+// VerifCrashPoint, when set, is called from the goroutine that just performed
+// a filesystem mutation (or reached a linearization point) of a disk queue.
+// Verification builds only; nil means disabled.
+var VerifCrashPoint func(point string)
+
+// VerifHook is like VerifCrashPoint but also identifies the queue.
+var VerifHook func(d *DiskQueue, point string)
+
+func (d *DiskQueue) verifCrashPoint(p string) {
+	if f := VerifHook; f != nil {
+		f(d, p)
+	}
+	if f := VerifCrashPoint; f != nil {
+		f(p)
+	}
+}
+
+// VerifQueueState is the in-memory position state of a DiskQueue.
+type VerifQueueState struct {
+	Depth, ReadFileNum, ReadPos, WriteFileNum, WritePos int64
+	NextReadFileNum, NextReadPos                        int64
+	NeedSync                                            bool
+}
+
+// VerifState must only be called from inside a hook (i.e. from the goroutine
+// that owns the state at that moment).
+func (d *DiskQueue) VerifState() VerifQueueState {
+	return VerifQueueState{
+		Depth:           atomic.LoadInt64(&d.depth),
+		ReadFileNum:     d.readFileNum,
+		ReadPos:         d.readPos,
+		WriteFileNum:    d.writeFileNum,
+		WritePos:        d.writePos,
+		NextReadFileNum: d.nextReadFileNum,
+		NextReadPos:     d.nextReadPos,
+		NeedSync:        d.needSync,
+	}
+}
+
+// VerifName returns the queue name.
+func (d *DiskQueue) VerifName() string { return d.name }
